@@ -34,7 +34,11 @@ gaVars == <<life, pool, loose, owed, op, heap, cfg>>
 Restrict(f, S) == [x \in S |-> f[x]]
 NoOp == [name |-> "none"]
 Idle == op.name = "none"
-Tracked == cfg.ety = "tk"
+Tracked == cfg.ety \in {"tk", "zst"}
+Anonymous == cfg.ety = "zst"      \* zero-sized elements carry no identity in the log
+SetMax(S) == CHOOSE x \in S : \A y \in S : y <= x
+SetMin(S) == CHOOSE x \in S : \A y \in S : x <= y
+NewId == IF DOMAIN life = {} THEN 1 ELSE SetMax(DOMAIN life) + 1
 Strict == cfg.mode = "strict"
 
 Known(e) == e \in DOMAIN life
